@@ -37,9 +37,9 @@ class G:
         return [oracle.shape_label(c, SHAPES_NS) for c in self.sel.get(key, [])]
 
 
-def matches(G_, v, t, prop, cfg):
-    if prop == cfg['inst_prop']:
-        return v[0] in 'IB' and v[1] == t
+def matches(G_, v, t, prop, cfg, value_set=True):
+    if prop == cfg['inst_prop'] and value_set:
+        return v[0] in 'IB' and v[1] == t       # `[ex:C]`: the value is that node
     if t == 'IRI': return v[0] == 'I'
     if t == 'BNode': return v[0] == 'B'
     if t == 'NONLITERAL': return v[0] in 'IB'
@@ -87,21 +87,21 @@ def conformance_errors(triples, cfg, parsed, G_=None, lm=None):
                 vals = G_.inn.get((n, p), []) if inv else G_.out.get((n, p), [])
                 tcs = [st for st in sh['stmts'] if st['inv'] == inv and st['prop'] == p]
                 for v in vals:
-                    m = [st for st in tcs if any(matches(G_, v, t, p, cfg) for t in st['types'])]
+                    m = [st for st in tcs if any(matches(G_, v, t, p, cfg, vs) for t, vs in zip(st['types'], st.get('value_set') or [True] * len(st['types'])))]
                     if len(m) == 0:
                         errs.append({'kind': 'value-unmatched', 'inv': inv, 'prop': p, 'value': list(v), 'node': n, 'class': cls})
                 bad = False
                 for st in tcs:
-                    k = sum(1 for v in vals if any(matches(G_, v, t, p, cfg) for t in st['types']))
+                    k = sum(1 for v in vals if any(matches(G_, v, t, p, cfg, vs) for t, vs in zip(st['types'], st.get('value_set') or [True] * len(st['types']))))
                     lo, hi = card_interval(st['card'])
                     if k < lo or (hi is not None and k > hi):
                         bad = True
                         errs.append({'kind': 'cardinality', 'inv': inv, 'prop': p, 'types': st['types'], 'card': st['card'], 'count': k,
                                      'node': n, 'class': cls})
-                ok = distribute(vals, tcs, lambda st, v: any(matches(G_, v, t, p, cfg) for t in st['types']))
+                ok = distribute(vals, tcs, lambda st, v: any(matches(G_, v, t, p, cfg, vs) for t, vs in zip(st['types'], st.get('value_set') or [True] * len(st['types']))))
                 if not ok:
                     shex_nc.add((cls, n))
-                    if not bad and all(any(matches(G_, v, t, p, cfg) for st in tcs for t in st['types']) for v in vals):
+                    if not bad and all(any(matches(G_, v, t, p, cfg, vs) for st in tcs for t, vs in zip(st['types'], st.get('value_set') or [True] * len(st['types']))) for v in vals):
                         # every count is in its interval taken alone, yet the values cannot be shared out (a constraint listed twice, overlapping constraints)
                         errs.append({'kind': 'distribution', 'inv': inv, 'prop': p, 'constraints': [(st['types'], st['card']) for st in tcs],
                                      'values': len(vals), 'node': n, 'class': cls})
